@@ -30,8 +30,8 @@ inductive RV (K V : Type) where
 
 /-- how elements render (`Debug` / `Display` of the user types). -/
 structure Render (K V : Type) where
-  dbgK : K → String
-  dbgV : V → String
+  dbgK : Bool → K → String     -- `{:?}` (false) / `{:#?}` (true) of a key: the pretty form may be multi-line
+  dbgV : Bool → V → String
   dspK : K → String
   dspV : V → String
 
@@ -297,10 +297,10 @@ def renderRest (R : Render K V) (kind : IterKind) (alt : Bool) (l : List (K × V
   match kind with
   | .iter | .iter_mut =>
     StdFmt.debugList alt (l.map fun p => if alt
-      then "(\n" ++ StdFmt.indent (R.dbgK p.1) ++ ",\n" ++ StdFmt.indent (R.dbgV p.2) ++ ",\n)"
-      else "(" ++ R.dbgK p.1 ++ ", " ++ R.dbgV p.2 ++ ")")
-  | .keys => StdFmt.debugList alt (l.map fun p => R.dbgK p.1)
-  | .values | .values_mut => StdFmt.debugList alt (l.map fun p => R.dbgV p.2)
+      then "(\n" ++ StdFmt.indent (R.dbgK true p.1) ++ ",\n" ++ StdFmt.indent (R.dbgV true p.2) ++ ",\n)"
+      else "(" ++ R.dbgK false p.1 ++ ", " ++ R.dbgV false p.2 ++ ")")
+  | .keys => StdFmt.debugList alt (l.map fun p => R.dbgK alt p.1)
+  | .values | .values_mut => StdFmt.debugList alt (l.map fun p => R.dbgV alt p.2)
 
 /-- run a clone of a borrowing iterator to its end. -/
 def iterRunOut (kind : IterKind) (it : SliceIt) : SM K V Q (List (RV K V)) := do
@@ -420,10 +420,10 @@ def fmtMap (R : Render K V) (kind : FmtKind) : SM K V Q String := do
   let s ← getS
   let l ← entriesOf s.r
   match kind with
-  | .debug => pure (StdFmt.debugMap false (l.map fun p => (R.dbgK p.1, R.dbgV p.2)))
-  | .debugAlt => pure (StdFmt.debugMap true (l.map fun p => (R.dbgK p.1, R.dbgV p.2)))
+  | .debug => pure (StdFmt.debugMap false (l.map fun p => (R.dbgK false p.1, R.dbgV false p.2)))
+  | .debugAlt => pure (StdFmt.debugMap true (l.map fun p => (R.dbgK true p.1, R.dbgV true p.2)))
   | .display | .displayPad | .displayAlt => pure (displayMapCode R l)
-  | .debugPad => pure (StdFmt.debugMap false (l.map fun p => (R.dbgK p.1, R.dbgV p.2)))
+  | .debugPad => pure (StdFmt.debugMap false (l.map fun p => (R.dbgK false p.1, R.dbgV false p.2)))
 
 /-- read back the values behind the references `get_disjoint_mut` returned. -/
 def readSlots (r : Raw K V) : List (Option Nat) → SM K V Q (List (RV K V))
